@@ -92,7 +92,17 @@ Theorem check_region_private : forall r, check_region r = true ->
 Proof.
   intros r Hc p Hp. unfold check_region in Hc. apply andb_true_iff in Hc. destruct Hc as [_ Hc].
   unfold check_private in Hc. rewrite forallb_forall in Hc. specialize (Hc p Hp).
-  intros E. rewrite E in Hc. discriminate.
+  unfold pvar_ok in Hc. intros E. rewrite E in Hc. discriminate.
+Qed.
+
+(* ... and its class is the one the Coq classifier computes from the listed events *)
+Theorem check_region_classified : forall r, check_region r = true ->
+  forall p, In p (r_private r) -> p_class p = classify (p_events p).
+Proof.
+  intros r Hc p Hp. unfold check_region in Hc. apply andb_true_iff in Hc. destruct Hc as [_ Hc].
+  unfold check_private in Hc. rewrite forallb_forall in Hc. specialize (Hc p Hp).
+  unfold pvar_ok in Hc. apply andb_true_iff in Hc. destruct Hc as [_ Hc].
+  destruct (p_class p), (classify (p_events p)); try discriminate; reflexivity.
 Qed.
 
 (* a reported witness is a genuine conflict of the descriptor *)
